@@ -29,4 +29,432 @@ theorem covered_append (a b : Res) (o : Out) (ha : Covered a) (hb : Covered b) :
 
 theorem covered_out (r : Res) (o : Out) (h : Covered r) : Covered { r with out := o } := h
 
+
+/-! ### `eval` against Python -/
+
+theorem ofPy_liftOp (sub : Bool) (r : Except OpErr Val) : ofPy sub (liftOp r) = ofExcept r := by
+  cases r with
+  | ok v => rfl
+  | error e => cases e <;> rfl
+
+theorem access_out (sub : Bool) (env : Env) (v : Val) (a : String) (subs : List Sub) (reads : List Loc) :
+    (access sub env v a subs reads).out = ofPy sub (pyAccess env v a) := by
+  unfold access pyAccess
+  split
+  · split <;> rfl
+  · rfl
+
+/-- the outcome of the strict Python semantics as MPF shows it -/
+theorem eval_out (sub : Bool) (env : Env) (e : Expr) : (eval sub env e).out = ofPy sub (py false env e) := by
+  induction e with
+  | const v => rfl
+  | name n =>
+    simp only [eval, py]
+    split
+    · rfl
+    · split
+      · rfl
+      · cases sub <;> rfl
+  | unary op e ih =>
+    simp only [eval, py]
+    cases h : py false env e with
+    | ok v => rw [h] at ih; simp only [ofPy] at ih; simp only [ih, ofPy_liftOp]
+    | error x => rw [h] at ih; cases x <;> cases sub <;> simp only [ofPy, mapErr] at ih <;> simp [ih, ofPy, mapErr]
+  | bin op a b iha ihb =>
+    simp only [eval, py]
+    cases h : py false env a with
+    | ok va =>
+      rw [h] at iha; simp only [ofPy] at iha; simp only [iha]
+      cases h2 : py false env b with
+      | ok vb => rw [h2] at ihb; simp only [ofPy] at ihb; simp only [ihb, ofPy_liftOp]
+      | error x => rw [h2] at ihb; cases x <;> cases sub <;> simp only [ofPy, mapErr] at ihb <;> simp [ihb, ofPy, mapErr]
+    | error x => rw [h] at iha; cases x <;> cases sub <;> simp only [ofPy, mapErr] at iha <;> simp [iha, ofPy, mapErr]
+  | cmp op a b iha ihb =>
+    simp only [eval, py]
+    cases h : py false env a with
+    | ok va =>
+      rw [h] at iha; simp only [ofPy] at iha; simp only [iha]
+      cases h2 : py false env b with
+      | ok vb => rw [h2] at ihb; simp only [ofPy] at ihb; simp only [ihb, ofPy_liftOp]
+      | error x => rw [h2] at ihb; cases x <;> cases sub <;> simp only [ofPy, mapErr] at ihb <;> simp [ihb, ofPy, mapErr]
+    | error x => rw [h] at iha; cases x <;> cases sub <;> simp only [ofPy, mapErr] at iha <;> simp [iha, ofPy, mapErr]
+  | boolop op a b iha ihb =>
+    simp only [eval, py]
+    cases h : py false env a with
+    | ok va =>
+      rw [h] at iha; simp only [ofPy] at iha; simp only [iha, Bool.false_and, Bool.false_eq_true, if_false]
+      cases h2 : py false env b with
+      | ok vb => rw [h2] at ihb; simp only [ofPy] at ihb; simp only [ihb, ofPy_liftOp]
+      | error x => rw [h2] at ihb; cases x <;> cases sub <;> simp only [ofPy, mapErr] at ihb <;> simp [ihb, ofPy, mapErr]
+    | error x => rw [h] at iha; cases x <;> cases sub <;> simp only [ofPy, mapErr] at iha <;> simp [iha, ofPy, mapErr]
+  | ite c a b ihc iha ihb =>
+    simp only [eval, py]
+    cases h : py false env c with
+    | ok vc =>
+      rw [h] at ihc; simp only [ofPy] at ihc; simp only [ihc]
+      cases ht : truthy vc <;> simp [iha, ihb]
+    | error x => rw [h] at ihc; cases x <;> cases sub <;> simp only [ofPy, mapErr] at ihc <;> simp [ihc, ofPy, mapErr]
+  | tnil => rfl
+  | tcons hd t ihh iht =>
+    simp only [eval, py]
+    cases h : py false env hd with
+    | ok vh =>
+      rw [h] at ihh; simp only [ofPy] at ihh; simp only [ihh]
+      cases h2 : py false env t with
+      | ok vt => rw [h2] at iht; simp only [ofPy] at iht; simp only [iht, ofPy]
+      | error x => rw [h2] at iht; cases x <;> cases sub <;> simp only [ofPy, mapErr] at iht <;> simp [iht, ofPy, mapErr]
+    | error x => rw [h] at ihh; cases x <;> cases sub <;> simp only [ofPy, mapErr] at ihh <;> simp [ihh, ofPy, mapErr]
+  | attr e a ih =>
+    simp only [eval, py]
+    cases h : py false env e with
+    | ok v =>
+      rw [h] at ih; simp only [ofPy] at ih; simp only [ih]
+      cases ht : truthy v
+      · cases sub <;> simp [ofPy, mapErr]
+      · simp [access_out]
+    | error x => rw [h] at ih; cases x <;> cases sub <;> simp only [ofPy, mapErr] at ih <;> simp [ih, ofPy, mapErr]
+  | item e k ihe ihk =>
+    simp only [eval, py]
+    cases h : py false env e with
+    | ok v =>
+      rw [h] at ihe; simp only [ofPy] at ihe; simp only [ihe]
+      cases h2 : py false env k with
+      | ok vk =>
+        rw [h2] at ihk; simp only [ofPy] at ihk; simp only [ihk]
+        unfold pyItem
+        split
+        · split
+          · rfl
+          · exact access_out sub env _ _ _ _
+        · split
+          · split <;> rfl
+          · rfl
+        · rfl
+      | error x => rw [h2] at ihk; cases x <;> cases sub <;> simp only [ofPy, mapErr] at ihk <;> simp [ihk, ofPy, mapErr]
+    | error x => rw [h] at ihe; cases x <;> cases sub <;> simp only [ofPy, mapErr] at ihe <;> simp [ihe, ofPy, mapErr]
+
+
+/-! ### strict evaluation of `and` / `or` against Python's short-circuit -/
+
+theorem liftOp_ok {r : Except OpErr Val} {v : Val} (h : liftOp r = .ok v) : r = .ok v := by
+  cases r with
+  | ok w => simpa [liftOp] using h
+  | error e => simp [liftOp] at h
+
+/-- when the left operand already decides, folding both operands gives the left operand -/
+theorem and_short (va vb : Val) (h : truthy va = false) :
+    viaTable boolTable "And" (fun fn => applyBool fn va vb) = .ok va := by
+  simp [viaTable, lookup, boolTable, applyBool, h]
+
+theorem or_short (va vb : Val) (h : truthy va = true) :
+    viaTable boolTable "Or" (fun fn => applyBool fn va vb) = .ok va := by
+  simp [viaTable, lookup, boolTable, applyBool, h]
+
+theorem strict_to_lazy (env : Env) (e : Expr) : ∀ v, py false env e = .ok v → py true env e = .ok v := by
+  induction e with
+  | const w => intro v h; exact h
+  | name n => intro v h; exact h
+  | unary op e ih =>
+    intro v h
+    simp only [py] at h ⊢
+    cases h1 : py false env e with
+    | ok w => rw [h1] at h; rw [ih w h1]; exact h
+    | error x => rw [h1] at h; simp at h
+  | bin op a b iha ihb =>
+    intro v h
+    simp only [py] at h ⊢
+    cases h1 : py false env a with
+    | ok va =>
+      rw [h1] at h; rw [iha va h1]
+      cases h2 : py false env b with
+      | ok vb => rw [h2] at h; rw [ihb vb h2]; exact h
+      | error x => rw [h2] at h; simp at h
+    | error x => rw [h1] at h; simp at h
+  | cmp op a b iha ihb =>
+    intro v h
+    simp only [py] at h ⊢
+    cases h1 : py false env a with
+    | ok va =>
+      rw [h1] at h; rw [iha va h1]
+      cases h2 : py false env b with
+      | ok vb => rw [h2] at h; rw [ihb vb h2]; exact h
+      | error x => rw [h2] at h; simp at h
+    | error x => rw [h1] at h; simp at h
+  | boolop op a b iha ihb =>
+    intro v h
+    simp only [py] at h ⊢
+    cases h1 : py false env a with
+    | ok va =>
+      rw [h1] at h; rw [iha va h1]
+      simp only [Bool.false_and, Bool.false_eq_true, if_false] at h
+      cases h2 : py false env b with
+      | ok vb =>
+        rw [h2] at h
+        have hv := liftOp_ok h
+        simp only [Bool.true_and]
+        split
+        · rename_i hc
+          simp only [Bool.or_eq_true, Bool.and_eq_true, decide_eq_true_eq, Bool.not_eq_true'] at hc
+          rcases hc with ⟨ho, ht⟩ | ⟨ho, ht⟩
+          · subst ho; rw [and_short va vb ht] at hv; rw [Except.ok.inj hv]
+          · subst ho; rw [or_short va vb ht] at hv; rw [Except.ok.inj hv]
+        · rw [ihb vb h2]; exact h
+      | error x => rw [h2] at h; simp at h
+    | error x => rw [h1] at h; simp at h
+  | ite c a b ihc iha ihb =>
+    intro v h
+    simp only [py] at h ⊢
+    cases h1 : py false env c with
+    | ok vc =>
+      rw [h1] at h; rw [ihc vc h1]
+      cases ht : truthy vc
+      · simp only [ht, Bool.false_eq_true, if_false] at h ⊢; exact ihb v h
+      · simp only [ht, if_true] at h ⊢; exact iha v h
+    | error x => rw [h1] at h; simp at h
+  | tnil => intro v h; exact h
+  | tcons hd t ihh iht =>
+    intro v h
+    simp only [py] at h ⊢
+    cases h1 : py false env hd with
+    | ok vh =>
+      rw [h1] at h; rw [ihh vh h1]
+      cases h2 : py false env t with
+      | ok vt => rw [h2] at h; rw [iht vt h2]; exact h
+      | error x => rw [h2] at h; simp at h
+    | error x => rw [h1] at h; simp at h
+  | attr e a ih =>
+    intro v h
+    simp only [py] at h ⊢
+    cases h1 : py false env e with
+    | ok w => rw [h1] at h; rw [ih w h1]; exact h
+    | error x => rw [h1] at h; simp at h
+  | item e k ihe ihk =>
+    intro v h
+    simp only [py] at h ⊢
+    cases h1 : py false env e with
+    | ok w =>
+      rw [h1] at h; rw [ihe w h1]
+      cases h2 : py false env k with
+      | ok vk => rw [h2] at h; rw [ihk vk h2]; exact h
+      | error x => rw [h2] at h; simp at h
+    | error x => rw [h1] at h; simp at h
+
+
+/-! ### freshness: the result depends only on the subscribed locations -/
+
+/-- `env'` has the same parameters as `env` and the same value at every location subscribed in `subs` -/
+def Agree (env env' : Env) (subs : List Sub) : Prop :=
+  env'.params = env.params ∧ ∀ l, Sub.loc l ∈ subs → env'.read l = env.read l
+
+theorem Agree.mono {env env' : Env} {S T : List Sub} (h : Agree env env' T) (hs : S ⊆ T) : Agree env env' S :=
+  ⟨h.1, fun l hl => h.2 l (hs hl)⟩
+
+theorem access_subs (s : Bool) (env : Env) (v : Val) (a : String) (subs : List Sub) (reads : List Loc) :
+    subs ⊆ (access s env v a subs reads).subs := by
+  unfold access
+  split
+  · split <;> simp
+  · simp
+
+theorem access_fresh (env env' : Env) (v : Val) (a : String) (subs : List Sub) (reads : List Loc)
+    (h : Agree env env' (access true env v a subs reads).subs) :
+    access true env' v a subs reads = access true env v a subs reads := by
+  unfold access at h ⊢
+  split
+  · split
+    · rfl
+    · rename_i r p hlt
+      simp only [hlt, if_false, if_true] at h
+      rw [h.2 (r, p ++ [a]) (by simp)]
+  · rfl
+
+theorem subs_unary (s : Bool) (env : Env) (op : String) (e : Expr) :
+    (eval s env e).subs ⊆ (eval s env (.unary op e)).subs := by
+  simp only [eval]; split <;> simp
+
+theorem subs_bin_l (s : Bool) (env : Env) (op : String) (a b : Expr) :
+    (eval s env a).subs ⊆ (eval s env (.bin op a b)).subs := by
+  simp only [eval]; split
+  · split <;> simp
+  · simp
+
+theorem subs_bin_r (s : Bool) (env : Env) (op : String) (a b : Expr) (va : Val) (h : (eval s env a).out = .ok va) :
+    (eval s env b).subs ⊆ (eval s env (.bin op a b)).subs := by
+  simp only [eval, h]; split <;> simp
+
+theorem subs_cmp_l (s : Bool) (env : Env) (op : String) (a b : Expr) :
+    (eval s env a).subs ⊆ (eval s env (.cmp op a b)).subs := by
+  simp only [eval]; split
+  · split <;> simp
+  · simp
+
+theorem subs_cmp_r (s : Bool) (env : Env) (op : String) (a b : Expr) (va : Val) (h : (eval s env a).out = .ok va) :
+    (eval s env b).subs ⊆ (eval s env (.cmp op a b)).subs := by
+  simp only [eval, h]; split <;> simp
+
+theorem subs_bool_l (s : Bool) (env : Env) (op : String) (a b : Expr) :
+    (eval s env a).subs ⊆ (eval s env (.boolop op a b)).subs := by
+  simp only [eval]; split
+  · split <;> simp
+  · simp
+
+theorem subs_bool_r (s : Bool) (env : Env) (op : String) (a b : Expr) (va : Val) (h : (eval s env a).out = .ok va) :
+    (eval s env b).subs ⊆ (eval s env (.boolop op a b)).subs := by
+  simp only [eval, h]; split <;> simp
+
+theorem subs_tcons_l (s : Bool) (env : Env) (a b : Expr) :
+    (eval s env a).subs ⊆ (eval s env (.tcons a b)).subs := by
+  simp only [eval]; split
+  · split <;> simp
+  · simp
+
+theorem subs_tcons_r (s : Bool) (env : Env) (a b : Expr) (va : Val) (h : (eval s env a).out = .ok va) :
+    (eval s env b).subs ⊆ (eval s env (.tcons a b)).subs := by
+  simp only [eval, h]; split <;> simp
+
+theorem subs_ite_c (s : Bool) (env : Env) (c a b : Expr) :
+    (eval s env c).subs ⊆ (eval s env (.ite c a b)).subs := by
+  simp only [eval]; split <;> simp
+
+theorem subs_ite_a (s : Bool) (env : Env) (c a b : Expr) (vc : Val) (h : (eval s env c).out = .ok vc)
+    (ht : truthy vc = true) : (eval s env a).subs ⊆ (eval s env (.ite c a b)).subs := by
+  simp [eval, h, ht]
+
+theorem subs_ite_b (s : Bool) (env : Env) (c a b : Expr) (vc : Val) (h : (eval s env c).out = .ok vc)
+    (ht : truthy vc = false) : (eval s env b).subs ⊆ (eval s env (.ite c a b)).subs := by
+  simp [eval, h, ht]
+
+theorem subs_attr (s : Bool) (env : Env) (e : Expr) (a : String) :
+    (eval s env e).subs ⊆ (eval s env (.attr e a)).subs := by
+  simp only [eval]; split
+  · split
+    · simp
+    · exact access_subs _ _ _ _ _ _
+  · simp
+
+theorem subs_item_l (s : Bool) (env : Env) (e k : Expr) :
+    (eval s env e).subs ⊆ (eval s env (.item e k)).subs := by
+  simp only [eval]; split
+  · split
+    · split
+      · split
+        · simp
+        · exact fun x hx => access_subs _ _ _ _ _ _ (List.mem_append_left _ hx)
+      · split <;> simp
+      · simp
+    · simp
+  · simp
+
+theorem subs_item_r (s : Bool) (env : Env) (e k : Expr) (v : Val) (h : (eval s env e).out = .ok v) :
+    (eval s env k).subs ⊆ (eval s env (.item e k)).subs := by
+  simp only [eval, h]; split
+  · split
+    · split
+      · simp
+      · exact fun x hx => access_subs _ _ _ _ _ _ (List.mem_append_right _ hx)
+    · split <;> simp
+    · simp
+  · simp
+
+
+theorem fresh_eval (env env' : Env) (e : Expr) :
+    Agree env env' (eval true env e).subs → eval true env' e = eval true env e := by
+  induction e with
+  | const v => intro _; rfl
+  | name n => intro h; simp only [eval, h.1]
+  | unary op e ih =>
+    intro h
+    have ee := ih (h.mono (subs_unary _ _ _ _))
+    simp only [eval, ee]
+  | bin op a b iha ihb =>
+    intro h
+    have ea := iha (h.mono (subs_bin_l _ _ _ _ _))
+    simp only [eval, ea]
+    cases hao : (eval true env a).out with
+    | ok va => have eb := ihb (h.mono (subs_bin_r _ _ _ _ _ va hao)); simp only [eb]
+    | default => rfl
+    | crash => rfl
+    | unmodelled => rfl
+  | cmp op a b iha ihb =>
+    intro h
+    have ea := iha (h.mono (subs_cmp_l _ _ _ _ _))
+    simp only [eval, ea]
+    cases hao : (eval true env a).out with
+    | ok va => have eb := ihb (h.mono (subs_cmp_r _ _ _ _ _ va hao)); simp only [eb]
+    | default => rfl
+    | crash => rfl
+    | unmodelled => rfl
+  | boolop op a b iha ihb =>
+    intro h
+    have ea := iha (h.mono (subs_bool_l _ _ _ _ _))
+    simp only [eval, ea]
+    cases hao : (eval true env a).out with
+    | ok va => have eb := ihb (h.mono (subs_bool_r _ _ _ _ _ va hao)); simp only [eb]
+    | default => rfl
+    | crash => rfl
+    | unmodelled => rfl
+  | ite c a b ihc iha ihb =>
+    intro h
+    have ec := ihc (h.mono (subs_ite_c _ _ _ _ _))
+    simp only [eval, ec]
+    cases hco : (eval true env c).out with
+    | ok vc =>
+      cases ht : truthy vc
+      · have eb := ihb (h.mono (subs_ite_b _ _ _ _ _ vc hco ht)); simp only [ht, Bool.false_eq_true, if_false, eb]
+      · have ea := iha (h.mono (subs_ite_a _ _ _ _ _ vc hco ht)); simp only [ht, if_true, ea]
+    | default => rfl
+    | crash => rfl
+    | unmodelled => rfl
+  | tnil => intro _; rfl
+  | tcons a b iha ihb =>
+    intro h
+    have ea := iha (h.mono (subs_tcons_l _ _ _ _))
+    simp only [eval, ea]
+    cases hao : (eval true env a).out with
+    | ok va => have eb := ihb (h.mono (subs_tcons_r _ _ _ _ va hao)); simp only [eb]
+    | default => rfl
+    | crash => rfl
+    | unmodelled => rfl
+  | attr e a ih =>
+    intro h
+    have ee := ih (h.mono (subs_attr _ _ _ _))
+    simp only [eval, ee]
+    cases heo : (eval true env e).out with
+    | ok v =>
+      dsimp only
+      cases ht : truthy v
+      · rfl
+      · simp only [Bool.true_eq_false, if_false]
+        apply access_fresh
+        simpa [eval, heo, ht] using h
+    | default => rfl
+    | crash => rfl
+    | unmodelled => rfl
+  | item e k ihe ihk =>
+    intro h
+    have ee := ihe (h.mono (subs_item_l _ _ _ _))
+    simp only [eval, ee]
+    cases heo : (eval true env e).out with
+    | ok v =>
+      have ek := ihk (h.mono (subs_item_r _ _ _ _ v heo))
+      simp only [ek]
+      cases hko : (eval true env k).out with
+      | ok vk =>
+        simp only [eval, heo, hko] at h
+        dsimp only
+        split
+        · rename_i root p key
+          by_cases hs : root = "settings"
+          · simp only [hs, if_true]
+          · simp only [hs, if_false] at h ⊢
+            exact access_fresh _ _ _ _ _ _ h
+        · rfl
+        · rfl
+      | default => rfl
+      | crash => rfl
+      | unmodelled => rfl
+    | default => rfl
+    | crash => rfl
+    | unmodelled => rfl
+
 end MpfVerif.Template
